@@ -175,6 +175,10 @@ def fam_suppress(p: Dict[str, Any], problems: List[str], w: World) -> Tuple[str,
             loop.call_at(t1 / 1000, inject, wire.query([], answers=ka2, id_=78), "10.0.0.60")
         else:
             loop.call_at(t1 / 1000, inject, wire.query(qs, answers=first_ka, id_=77), "10.0.0.60")
+        if p.get("earlier_ms"):
+            # the same question with the same known answers was already heard from another neighbour a little earlier:
+            # what counts for the 999 ms is the latest hearing
+            loop.call_at((t1 - p["earlier_ms"]) / 1000, inject, wire.query(qs, answers=first_ka, id_=76), "10.0.0.61")
     else:
         # first asker: a browser of this very instance, forced QM, cancelled right after its first query; it lists the
         # cache as it is at t1, so 'subset'/'superset' are produced by changing the cache between t1 and t2
@@ -368,6 +372,10 @@ def points(tier: str) -> List[Dict[str, Any]]:
                     if first == "heard" and second == "QM" and gap in (1, 500, 999, 1000):
                         pts.append({"fam": "suppress", "first": first, "gap": gap, "rel": rel, "second": second,
                                     "heard_split": True})
+                    if first == "heard" and second == "QM" and gap in (500, 998, 999, 1000):
+                        for e in (1, 600, 999, 1500):
+                            pts.append({"fam": "suppress", "first": first, "gap": gap, "rel": rel, "second": second,
+                                        "earlier_ms": e})
                     if first == "heard" and second == "QM":
                         for hq in ("ours-first", "ours-last", "ours-after-qu"):
                             pts.append({"fam": "suppress", "first": first, "gap": gap, "rel": rel, "second": second,
